@@ -40,7 +40,7 @@ READERS = f("p/p2pke", "verify", "verifyAuthClaim", "readInitHello", "readRespHe
 CHANNEL = f("p/p2pke", "(*Channel).setCurrent", "(*Channel).setNext", "(*Channel).checkKey", "(*Channel).newInit", "(*Channel).newResp",
             "(*Channel).proposeNewSession", "(*Channel).onReadySession", "(*Channel).expireSessions", "(*Channel).Deliver$1",
             "(*Channel).getOrInit", "(*Channel).onRekey$1", "(*Channel).onHandshake$1", "(*Channel).Send$1", "(*Timer).Reset",
-            "helloID", "deliveryOrder", "(sessionEntry).foreignHello")
+            "helloID", "deliveryOrder", "(sessionEntry).foreignHello", "newTimer$1")
 CRYPTO = ["flynn/noise handshake and cipher states by assumed contracts: Encrypt appends len(plaintext)+16 bytes, Decrypt returns the plaintext or an error, neither touches the caller's state; WriteMessage/ReadMessage opaque",
           "signature verification (x509.Registry / Verifier) is an uninterpreted pure call: a true result is taken to mean the peer signed (cryptographic soundness assumed)",
           "wireguard replay.Filter.ValidateCounter accepts a counter at most once and only below the limit (assumed)",
@@ -59,6 +59,8 @@ HUBS = ["channels are abstracted to identity + closed flag; the contents of a ch
 KESWARM = f("s/p2pkeswarm", "(*Swarm).getFullAddr$1$1", "(*Swarm).handleMessage$1$1", "(*Swarm).handleMessage", "(*Swarm).getFullAddr")
 QUICGLUE = f("s/quicswarm", "(*Swarm).withSession", "(*Swarm).serve", "(*Swarm).handleAsk", "(*Swarm).handleTells$1")
 DHT = f("p/kademlia", "dhtIterate", "DHTPut$1", "DHTGet$2", "DHTJoin", "DHTPut", "DHTGet", "DHTFindNode")
+CLOSES = (f("p/mbapp", "(*Swarm).Close") + f("p/p2pmux", "(*muxedSwarm).Close") + f("s/p2pkeswarm", "(*Swarm).Close") + f("s/quicswarm", "(*Swarm).Close")
+          + f("s/sshswarm", "(*Swarm).Close") + f("s/vswarm", "(*SecureRealm).Drop", "(*SecureSwarm).Close") + f("s/swarmutil", "(*Queue).Close") + f("s/fragswarm", "(*swarm).recvLoops"))
 IDS = f("", "(*PeerID).UnmarshalText") + f("f/x509", "EqualPublicKeys") + f("s/p2pkeswarm", "DefaultFingerprinter", "ParseAddr", "New") + f("s/quicswarm", "DefaultFingerprinter", "ParseAddr")
 
 QUEUE = f("s/swarmutil", "zeroMessage", "copyMessage", "(*Queue).Deliver", "(*Queue).DeliverVec", "(*Queue).Receive")
@@ -77,9 +79,9 @@ PROPS = [
     dict(id="C08", functions=MUX + FRAG_WIRE + FRAG_AGG + HDR + BITMAP + COLL, assumptions=COMMON + BINARY),
     dict(id="C09", functions=VEC + FRAG_SEND + f("s/fragswarm", "newMessage", "appendUvarint") + MB_SEND + HDR + f("p/p2pmux", "(*muxedSwarm).MTU") + f("s/vswarm", "(*SecureRealm).tell", "(*SecureRealm).ask"), assumptions=COMMON + BINARY),
     dict(id="C10", functions=FRAG_WIRE + FRAG_AGG + BITMAP + COLL, assumptions=COMMON + BINARY),
-    dict(id="C11", functions=ASKHUB + f("p/p2pmux", "(*muxCore).serveLoop$1$1", "(*muxCore).serveLoop$1") + f("s/vswarm", "(*SecureRealm).ask") + f("p/mbapp", "(*ask).complete") + f("s/sshswarm", "(*Swarm).Ask"),
+    dict(id="C11", functions=ASKHUB + f("p/p2pmux", "(*muxCore).serveLoop$1$1", "(*muxCore).serveLoop$1") + f("s/vswarm", "(*SecureRealm).ask") + f("p/mbapp", "(*ask).complete") + f("s/sshswarm", "(*Swarm).Ask", "(*Conn).loop"),
          assumptions=COMMON + HUBS + ["sshswarm's connection table and SSH transport are behind trusted contracts (getConn, Conn.Send)"]),
-    dict(id="C12", functions=TELLHUB + ASKHUB + f("s/swarmutil", "(*Queue).Receive") + f("s/multiswarm", "(*multiSwarm).Close", "NewSecureAsk"), assumptions=COMMON + HUBS),
+    dict(id="C12", functions=TELLHUB + ASKHUB + f("s/swarmutil", "(*Queue).Receive") + f("s/multiswarm", "(*multiSwarm).Close", "NewSecureAsk") + CLOSES, assumptions=COMMON + HUBS + ["while Queue.Close waits for checked-out buffers, other goroutines keep the invariants of other hubs (frame of Queue.Close assumed at its call sites)", "library calls made by the Close methods (context cancel functions, listeners, inner swarms, errgroup) keep the hubs' invariants and do not replace the hubs' channels (fnspec assumptions, listed per call)"]),
     dict(id="C13", functions=TELLHUB + ASKHUB + f("s/swarmutil", "(*Queue).Receive") + f("s/udpswarm", "(*Swarm).Receive"), assumptions=COMMON + HUBS + ["net.UDPConn.ReadFromUDP blocks on the socket only (no cancellation, no deadline set by the caller): model"]),
     dict(id="C15", functions=MUX + DISPATCH, assumptions=COMMON + BINARY + ["the channel table (sync.Map) only holds swarms built by newMuxedSwarm: trusted contract on muxCore.getSwarm"]),
     dict(id="C16", level="exploration", functions=[],
